@@ -88,7 +88,13 @@ class Injected(OSError):
 class Plane:
     def __init__(self, fault=None):
         self.step = 0
-        self.fault = fault           # None | ("io", k, kind) kind in EIO/ENOSPC/SHORT
+        self.fault = fault           # None | ("io", k, kind) | ("io2", k1, kind1, k2, kind2)
+        self.faults = []
+        self.fired_n = 0
+        if fault and fault[0] == "io":
+            self.faults = [("io", fault[1], fault[2])]
+        elif fault and fault[0] == "io2":
+            self.faults = [("io", fault[1], fault[2]), ("io", fault[3], fault[4])]
         self.trace = []              # (kind, label) per step
         self.fired = None
         self.block = None            # index of the block being executed
@@ -98,9 +104,13 @@ class Plane:
         k = self.step
         self.step += 1
         self.trace.append((op, label, self.block))
-        f = self.fault
-        if f is not None and f[0] == "io" and f[1] == k:
+        f = None
+        for cand in self.faults:
+            if cand[1] == k:
+                f = cand
+        if f is not None:
             kind = f[2]
+            self.fired_n += 1
             if kind == "SHORT":
                 if op == "read":
                     self.fired = (k, op, label, kind)
@@ -369,7 +379,7 @@ def _viol(sig, msg, extra=None):
 class Exec:
     def __init__(self, w, root, fault):
         self.w, self.root, self.fault = w, root, fault
-        self.plane = Plane(fault if fault and fault[0] == "io" else None)
+        self.plane = Plane(fault if fault and fault[0] in ("io", "io2") else None)
         self.V = []
         self.probes = {}
         self.nontrivial = False
@@ -402,9 +412,9 @@ class Exec:
                          (umod, "_known_compressions", table)):
                 for bi, blk in enumerate(self.w["blocks"]):
                     self.plane.block = bi
-                    stop = self.block(bi, blk, data, tmp_default, tmp_explicit)
-                    if stop:
-                        break
+                    # a failed block does not end the history: later blocks must
+                    # still work (nothing left behind that breaks them)
+                    self.block(bi, blk, data, tmp_default, tmp_explicit)
         finally:
             _real_tempfile.tempdir = saved_tmp
 
@@ -522,9 +532,11 @@ class Exec:
             with open(path, "wb") as f:
                 f.write(raw)
         corrupt = fault[2:] if fault and fault[0] == "corrupt" and fault[1] == bi else None
+        pristine = None
         if corrupt is not None:
             with open(path, "rb") as f:
                 raw = f.read()
+            pristine = raw
             how, arg = corrupt
             if how == "truncate":
                 raw = raw[:arg % max(1, len(raw))]
@@ -555,6 +567,9 @@ class Exec:
                 lzma.LZMAError, ValueError, KeyError, Exception) as e:  # noqa
             exc = e
         io_fault_here = self.plane.fired is not None and self.plane.fired is not fired_before
+        if pristine is not None:           # later blocks see the intact archive again
+            with open(path, "wb") as f:
+                f.write(pristine)
         self.log.append(f"b{bi} decompress {os.path.basename(path)} -> {type(exc).__name__}")
         self._check_debris(bi, tmp_default, tmp_explicit, copy_path or target)
         if body_fault is not None:
@@ -691,8 +706,21 @@ def run_one(tape, only=None):
             if blk["kind"].startswith("decompress"):
                 for i, how in enumerate(("truncate", "flip", "truncate")):
                     plan.append(("corrupt", bi, how, corrupt_args[i]))
+        if os.environ.get("VERIF_TIER") == "thorough" and len(ex0.plane.trace) >= 2:
+            import random as _random
+            rr = _random.Random(wd)
+            io_faults = [f for f in plan if f[0] == "io"]
+            for _ in range(min(40, len(io_faults))):
+                a, b = sorted(rr.sample(io_faults, 2), key=lambda f: f[1])
+                if a[1] != b[1]:
+                    plan.append(("io2", a[1], a[2], b[1], b[2]))
         for fault in plan:
             ex = execute(fault)
+            if fault[0] == "io2":
+                faults["double_fault"] = faults.get("double_fault", 0) + 1
+                if ex.plane.fired_n >= 2:
+                    probes["both_faults_fired"] = probes.get("both_faults_fired", 0) + 1
+                continue
             if fault[0] == "io":
                 op, label, _ = ex0.plane.trace[fault[1]]
                 if ex.plane.fired is None:
